@@ -35,7 +35,8 @@ ASSUMPTIONS = [
     'arbitrary 32-bit pattern when it is payload (checks/metmap.py)',
     'wind and cloud_rain readers: same scheme on a real scratch prefix '
     'file (they open the path themselves), with a 4 s termination limit; '
-    'lateral_boundary, landuse and bpch readers are not encoded',
+    'lateral_boundary likewise (inside its static header only the last 64 '
+    'byte offsets); landuse and bpch readers are not encoded',
 ]
 
 MANIFEST = {
